@@ -70,6 +70,18 @@ func (o *c01Oracle) Probe(pt string, zeit, subd int, wdt float64, g *G, w *herme
 		if g.ETA < 0 {
 			o.hit("neg.eta")
 		}
+		// the part of the bottom-boundary supply that is credited for root uptake from the groundwater layer is the
+		// uptake the day's evapotranspiration step has just assigned to one layer: never more than the largest layer
+		// uptake of this day (on a day without root uptake: nothing)
+		maxTP, sumTP := 0.0, 0.0
+		for i := 0; i < g.N; i++ {
+			maxTP = math.Max(maxTP, g.TP[i])
+			sumTP += g.TP[i]
+		}
+		if w.GWAUF < 0 || w.GWAUF > maxTP+tol(maxTP) {
+			o.violate("public-counters", "groundwater-supply-booked-without-uptake", zeit,
+				fmt.Sprintf("%.12g cm/d will be booked as groundwater supply for root uptake, but no layer delivers more than %.12g cm/d to the roots today (total uptake %.12g)", w.GWAUF, maxTP, sumTP), nil)
+		}
 	case "water.pre":
 		if subd == 1 {
 			o.sPre = storage(g, 0)
